@@ -53,6 +53,24 @@ pub fn run(env: &Env) -> Report {
             s.commit(&mut t, idx);
             rep.eval(Some(&format!("{}|{}|{}", opts.bits_str(), text, idx)));
             match file_ok(&xdg) { Some(true) => {}, other => rep.violation("C09", "store-not-loadable", format!("after a learning commit the store file is {:?}", other), ctxv(&s, "commit")) }
+            // re-learn the same word with every other candidate in turn (the rewritten file may get shorter or longer):
+            // the store must stay loadable after every commit, and the last choice wins
+            let mut chosen = chosen; let mut idx = idx;
+            if rng.chance(60) {
+                for k in 0..cands.len().min(6) {
+                    let o = s.type_text(&mut t, &text);
+                    let (ck, sk) = match full(&o) { Some(x) => (x.0.clone(), x.1), None => break };
+                    if k >= ck.len() || k == sk { s.finish(&mut t); continue; }
+                    let before_bytes = std::fs::read(sel_path(&xdg)).ok();
+                    s.commit(&mut t, k);
+                    match file_ok(&xdg) { Some(true) => {}, other => { rep.violation("C09", "store-not-loadable", format!("after re-learning {:?} with candidate {} ({:?}) the store file is {:?}", text, k, ck[k], other), ctxv(&s, "re-learn")); break; } }
+                    // the engine learns only when the index differs from ITS OWN preselection (after a punctuation key the returned
+                    // index is the caller's): the choice counts as re-learned only if the store changed
+                    if std::fs::read(sel_path(&xdg)).ok() != before_bytes { chosen = ck[k].clone(); idx = k; }
+                    rep.count("re-learn");
+                }
+            }
+            let _ = idx;
             // classification of the chosen candidate for known findings
             let (cp, _, cr) = wrapping(&env.data, &opts, &text);
             let curly = opts.smart_quote && (cp.chars().chain(cr.chars()).any(|c| "‘’“”".contains(c)));
@@ -149,7 +167,7 @@ pub fn run_c10(env: &Env) -> Report {
     let seed = env.a.seed;
     let corpus = malformed_corpus();
     // units: crash-point enumeration over engine-written stores; malformed corpus; directory faults
-    let nstores = if env.quick() { 16 } else { 400 };
+    let nstores = if env.quick() { 16 } else { 64 };   // thorough: every byte prefix of 64 engine-written stores (≈ 4 min)
     let nunits = nstores + 16 + 8;
     let reps = par_map(nunits, |ui| {
         let mut rep = Report::new("c10");
@@ -171,6 +189,18 @@ pub fn run_c10(env: &Env) -> Report {
                     if s.commit(t, i) == Obs::Panic { rep.violation("C10", "commit-panics", format!("a learning commit panicked: {}", what), ctxv("commit")); return None; }
                 } else { s.finish(t); }
             }
+            // a reload in the middle of a word (front-ends call update_engine whenever a setting changes), then a commit of
+            // another candidate than the preselected one
+            {
+                let o = s.type_text(t, "kor");
+                if let Some((c, sl)) = full(&o) {
+                    let c = c.clone();
+                    let mut om = opts; om.smart_quote = !om.smart_quote;
+                    if s.update(t, PHONETIC, om) == Obs::Panic { rep.violation("C10", "update-panics", format!("update_engine in the middle of a word panicked: {}", what), ctxv("update mid-word")); return None; }
+                    let i = if c.len() > 1 { (sl + 1) % c.len() } else { 0 };
+                    if s.commit(t, i) == Obs::Panic { rep.violation("C10", "commit-panics-after-midword-reload", format!("a commit right after a mid-word reload panicked: {}", what), ctxv("commit after mid-word update")); return None; }
+                }
+            }
             let mut o2 = opts; o2.english = !o2.english;
             if s.update(t, PHONETIC, o2) == Obs::Panic { rep.violation("C10", "update-panics", format!("update_engine panicked: {}", what), ctxv("update")); return None; }
             let w = pools.word(rng);
@@ -184,7 +214,7 @@ pub fn run_c10(env: &Env) -> Report {
             t.line(&format!("case c10-{}-write", ui));
             let mut bytes = vec![];
             if let Some(mut s) = Sess::new(&mut t, &env.data, "w", PHONETIC, opts, &xdg) {
-                let n = 1 + rng.below(if env.quick() { 8 } else { 60 });
+                let n = 1 + rng.below(if env.quick() { 8 } else { 30 });
                 for _ in 0..n {
                     let w = pools.word(&mut rng);
                     let txt = match rng.below(5) { 0 => format!("\"{}\"", w), 1 => format!("{}:", w), _ => w };
@@ -331,8 +361,11 @@ pub fn run_c11(env: &Env) -> Report {
             if has_ac1 { std::fs::write(ac_path(&xdg), serde_json::to_string(&ac1).unwrap()).unwrap(); set_mtime(&ac_path(&xdg), 0); }
             let mut a = match Sess::new(&mut t, &env.data, "a", &l1, o1, &xdg) { Some(s) => s, None => continue };
             let phon1 = l1 == PHONETIC;
-            // history: the shared words are typed before the update (that is where staleness lives); no learning commits
-            for w in &words { if phon1 { let o = a.type_text(&mut t, w); match full(&o) { Some((c, sl)) if sl < c.len() => { a.commit(&mut t, sl); } _ => { a.finish(&mut t); } } } else { for _ in 0..3 { let k = *rng.pick(&['k', 'a', 'm', 'i', 'h']); a.key(&mut t, code_for_char(k).unwrap(), 0, 0); } a.finish(&mut t); } }
+            // history: the shared words are typed before the update (that is where staleness lives); some commits learn, and
+            // the last word may leave a non-zero preselection behind (per-method state that an update must not carry over)
+            let learn_hist = rng.chance(50);
+            for (wi, w) in words.iter().enumerate() { if phon1 { let o = a.type_text(&mut t, w); match full(&o) { Some((c, sl)) if sl < c.len() => { let i = if learn_hist && c.len() > 1 { (sl + 1) % c.len() } else { sl }; a.commit(&mut t, i);
+                        if learn_hist && wi + 1 == words.len() { let o2 = a.type_text(&mut t, w); if let Some((c2, s2)) = full(&o2) { if s2 < c2.len() { a.commit(&mut t, s2); } else { a.finish(&mut t); } } } } _ => { a.finish(&mut t); } } } else { for _ in 0..3 { let k = *rng.pick(&['k', 'a', 'm', 'i', 'h']); a.key(&mut t, code_for_char(k).unwrap(), 0, 0); } a.finish(&mut t); } }
             // edits of the user auto-correct file between
             let edit = rng.below(4);
             match edit {
@@ -342,8 +375,13 @@ pub fn run_c11(env: &Env) -> Report {
                 _ => { std::fs::write(ac_path(&xdg), b"{\"broken\":").unwrap(); set_mtime(&ac_path(&xdg), 7); }
             }
             if a.update(&mut t, &l2, o2) == Obs::Panic { rep.violation("C11", "update-panics", "update_engine panicked".into(), json!({"stream": "c11", "events": a.events})); continue; }
-            // the fresh context with the new configuration over the same files
-            let mut b = match Sess::new(&mut t, &env.data, "b", &l2, o2, &xdg) { Some(s) => s, None => continue };
+            // the fresh context with the new configuration over (a copy of) the same files
+            let xdg_b = env.scratch.join(format!("{}-b", case));
+            { let (from, to) = (user_dir(&xdg), user_dir(&xdg_b)); let _ = std::fs::remove_dir_all(&to); std::fs::create_dir_all(&to).unwrap();
+              if let Ok(rd) = std::fs::read_dir(&from) { for e in rd.flatten() { let dst = to.join(e.file_name()); let _ = std::fs::copy(e.path(), &dst);
+                  if let Ok(m) = e.metadata().and_then(|m| m.modified()) { if let Ok(f) = std::fs::OpenOptions::new().write(true).open(&dst) { let _ = f.set_modified(m); } } } } }
+            t.line("# fresh context over a copy of the user directory");
+            let mut b = match Sess::new(&mut t, &env.data, "b", &l2, o2, &xdg_b) { Some(s) => s, None => continue };
             let phon2 = l2 == PHONETIC;
             let mut diverged = false;
             let cont: Vec<String> = if phon2 { let mut v = words.clone(); v.push(pools.word(&mut rng)); v.retain(|w| w.chars().all(crate::code_ok)); v } else { vec!["kami".into(), "hk".into()] };
@@ -358,8 +396,17 @@ pub fn run_c11(env: &Env) -> Report {
                             json!({"stream": "c11", "layout_before": l1, "opts_before": o1.bits_str(), "layout_after": l2, "opts_after": o2.bits_str(), "edit": edit, "events": a.events, "fresh_events": b.events}));
                     }
                 }
-                a.finish(&mut t); b.finish(&mut t);
+                // end the word by a commit (index 0, the preselected one, or another) in both, and compare what is on disk
+                let idx = match (&a.last, &b.last) { (Obs::Full { cands: c1, sel: s1, .. }, Obs::Full { cands: c2, .. }) if !c1.is_empty() && c1.len() == c2.len() => Some(match rng.below(3) { 0 => 0, 1 => (*s1).min(c1.len() - 1), _ => rng.below(c1.len()) }),
+                                                   (Obs::Single { text: x, .. }, Obs::Single { text: y, .. }) if !x.is_empty() && !y.is_empty() => Some(0), _ => None };
+                match idx { Some(i) if rng.chance(70) => { a.commit(&mut t, i); b.commit(&mut t, i); } _ => { a.finish(&mut t); b.finish(&mut t); } }
+                let (fa, fb) = (std::fs::read(sel_path(&xdg)).ok().and_then(|x| serde_json::from_slice::<HashMap<String, String>>(&x).ok()), std::fs::read(sel_path(&xdg_b)).ok().and_then(|x| serde_json::from_slice::<HashMap<String, String>>(&x).ok()));
+                if fa != fb && !diverged { diverged = true; rep.violation("C11", "updated-context-stores-differently", format!("{} {} -> {} {}: after committing {:?} the selection files differ: updated {:?} vs new {:?}", l1, o1.bits_str(), l2, o2.bits_str(), w, fa, fb),
+                    json!({"stream": "c11", "layout_before": l1, "opts_before": o1.bits_str(), "layout_after": l2, "opts_after": o2.bits_str(), "edit": edit, "events": a.events, "fresh_events": b.events})); }
+                // now and then the configuration is changed once more, in both
+                if rng.chance(20) && !a.imp.ongoing() { let mut o3 = o2; o3.phonetic_suggestion = !o3.phonetic_suggestion; o3.english = rng.chance(50); a.update(&mut t, &l2, o3); b.update(&mut t, &l2, o3); }
             }
+            let _ = std::fs::remove_dir_all(&xdg_b);
             rep.eval(Some(&format!("{}|{}|{}|{}|{}", l1, o1.bits_str(), l2, o2.bits_str(), edit)));
             rep.count(["no-edit", "edit-entries", "remove-file", "corrupt-file"][edit]);
             rep.count(if l1 != l2 { "layout-changed" } else if phon1 { "same-phonetic" } else { "same-fixed" });
